@@ -540,3 +540,17 @@ def c01_8(ctx, r):
     r.check(rx is not None and ctx.src(rx) in ("set()", "frozenset()", "[]", "()"), "AsyncHpcSubmitter.get_blocking_jobs() is the constant empty set", key_of(gb, "blocking jobs of a batch"), gb.loc(),
             "a batch object reports blocking jobs: JobQueue.submit queues it instead of handing it off, and nothing polls that queue again")
     # _run_job records the entry as outstanding only when run() returned GOOD (C12.3) - shared with C06.4
+
+
+@rule(P, "C01.9", "T1", "a job is a candidate of exactly one group's pass (states are persisted only at the end of the round)", min_obligations=2)
+def c01_9(ctx, r):
+    from .c07 import c07_4
+
+    c07_4(ctx, r)
+
+
+@rule(P, "C01.10", "T1+T6", "only one promoted submitter: the submitter field is taken only when empty", min_obligations=3)
+def c01_10(ctx, r):
+    from .c10 import c10_1
+
+    c10_1(ctx, r)
